@@ -584,8 +584,48 @@ def ind_conditions(*exprs):
                 while z3.is_not(c):
                     c = c.arg(0)
                 out[c.get_id()] = c
+            if is_sigma_app(t):
+                # binder-free boolean parameters of a sum (conditions inside its summand)
+                for a in t.children():
+                    if z3.is_bool(a) and not z3.is_true(a) and not z3.is_false(a):
+                        c = a
+                        while z3.is_not(c):
+                            c = c.arg(0)
+                        out[c.get_id()] = c
             stack.extend(t.children())
     return list(out.values())
+
+
+class _Fresh:
+    def __init__(self):
+        self.n = 0
+
+    def fresh_int(self, base="k"):
+        self.n += 1
+        return z3.Int("%s!rs%d" % (base, self.n))
+
+
+def resigma(e, fc=None, depth=0):
+    """re-normalise every Sigma application inside e (after its parameters were simplified,
+    e.g. a condition replaced by True/False): unfold, simplify the summand, sum again"""
+    fc = fc or _Fresh()
+    if not z3.is_app(e) or depth > 6:
+        return e
+    ch = [resigma(c, fc, depth + 1) for c in e.children()]
+    if is_sigma_app(e):
+        app = e.decl()(*ch) if ch else e
+        binders, body = unfold(app, fc)
+        body = z3.simplify(resigma(body, fc, depth + 1))
+        try:
+            return multi_sigma(binders, body, fc)
+        except OutOfReach:
+            return app
+    if not ch:
+        return e
+    try:
+        return e.decl()(*ch)
+    except Exception:
+        return e
 
 
 def certify_equal_by_cases(a, b, feasible, max_conds=7):
@@ -602,7 +642,11 @@ def certify_equal_by_cases(a, b, feasible, max_conds=7):
             subs = [(c, z3.BoolVal(v)) for c, v in assign]
             a2 = z3.simplify(z3.substitute(a, *subs)) if subs else a
             b2 = z3.simplify(z3.substitute(b, *subs)) if subs else b
-            results.append((list(assign), a2.eq(b2) or field_identity(a2, b2)))
+            ok = a2.eq(b2) or field_identity(a2, b2)
+            if not ok and subs:
+                a3, b3 = resigma(a2), resigma(b2)
+                ok = a3.eq(b3) or field_identity(a3, b3)
+            results.append((list(assign), ok))
             return
         for v in (True, False):
             assign.append((conds[i], v))
